@@ -380,6 +380,9 @@ func run(spec *Spec, tier, replay string, keep, buildOnly bool) int {
 	}
 
 	// evidence
+	if m.Samples == nil {
+		m.Samples = []any{}
+	}
 	cov := map[string]any{
 		"evaluations":           m.Evaluations,
 		"distinct_nontrivial":   m.Distinct,
